@@ -174,10 +174,25 @@ func constBounds(v ssa.Value, facts []Atom, depth int) (lo, hi int64, hasLo, has
 			if h := staticCallee(call.Common()); h != nil && h.Blocks != nil {
 				allLo, allHi, first := true, true, true
 				var mlo, mhi int64
+				// where the caller knows the helper's error to be nil, only its success returns count
+				errKnownNil := false
+				if tup, ok := call.Type().(*types.Tuple); ok && tup.Len() >= 2 && isErrorType(tup.At(tup.Len()-1).Type()) {
+					for _, at := range facts {
+						if ex, ok := at.X.(*ssa.Extract); ok && at.Kind == "nil" && at.Pos && ex.Tuple == ssa.Value(call) && ex.Index == tup.Len()-1 {
+							errKnownNil = true
+						}
+					}
+				}
 				for _, r := range returnsOf(h) {
 					if idx >= len(r.Results) {
 						allLo, allHi = false, false
 						break
+					}
+					if n := len(r.Results); errKnownNil && n >= 2 {
+						last := retOperand(r, n-1)
+						if !isNilConst(last) && (definitelyNonNil(strip(last)) || errNonNilAt(r, n-1) || isErrCtorCall(strip(last))) {
+							continue
+						}
 					}
 					elo, ehi, eHasLo, eHasHi := constBounds(retOperand(r, idx), factsAt(r.Block()), depth+1)
 					if !eHasLo {
